@@ -29,7 +29,7 @@ ASSUMPTIONS = [
     "simulated devices (pv/simdev) trusted; operator input is scripted, an exhausted script "
     "ends the command (the real tool would keep prompting)",
 ]
-FLOORS = {"quick": {"evaluations": 2500, "onboard_carried_out": 60, "onboard_refused": 400,
+FLOORS = {"quick": {"evaluations": 2500, "onboard_carried_out": 30, "onboard_refused": 400,
                     "unlock_sent": 60, "pin_changes_sent": 60, "pubkey_files_checked": 20},
           "thorough": {"evaluations": 20000, "onboard_carried_out": 500, "onboard_refused": 3000,
                        "unlock_sent": 1500, "pin_changes_sent": 800,
@@ -142,7 +142,7 @@ def cells(spec):
                 return c[3] and c[4]
             return c[2] == "boot" and c[4] and ((c[0] == "onboard" and not c[3]) or
                                                 (c[0] != "onboard" and c[3]))
-        keep = [c for c in out if promising(c) and (c[0] != "onboard" or rng.random() < 0.35)]
+        keep = [c for c in out if promising(c) and (c[0] != "onboard" or rng.random() < 0.6)]
         rest = [c for c in out if not promising(c)]
         out = keep + rng.sample(rest, 2600)
     return [c for i, c in enumerate(out) if i % spec["n"] == spec["shard"]]
